@@ -3437,7 +3437,11 @@ def run_C19(ctx):
                 rendered = sorted(render_value(v) for v in vals)
                 if rendered != sorted(mm[tn][p]):
                     ok = False
-        if not ok and not is_known:
+        if not ok and not is_known and c19_nested_escape(t):
+            # a nested value with a backslash / quote is emitted with JSON escapes that the Guard lexer does not undo
+            # (F-C19-5): re-rendering the PARSED clause cannot give back the emitted text, the comparison has no meaning
+            res.stats["c19-map-comparison-skipped-nested-escape"] += 1
+        elif not ok and not is_known:
             res.disagreements.append(dict(info, what="emitted clauses differ from the model's rule map", emitted_map=str(em)[:600], model_map=str(mm)[:600]))
         # mutations: every scalar occurrence
         for rn, r in t["Resources"].items():
@@ -3590,6 +3594,17 @@ def c05_scenarios(ctx, n):
                  ("plain-rev", "plain", ["validate", "-r", "{DIR}/r.guard"] + bw + ["-S", "all"]),
                  ("s-json", "bytes", ["validate", "-r", "{DIR}/r.guard"] + fw + ["--structured", "-o", "json", "-S", "none"])]
         out.append({"kind": "validate", "files": files, "modes": modes, "rules": dep_rules, "data": json.dumps([dep_docs[k] for k in order])})
+    # error paths print too: a reference to a rule / parameterised rule that does not exist (the message lists the
+    # known names), an unknown variable, a type error - stderr must be the same in every run
+    for k, rules in enumerate([
+            "rule a1 { x == 1 }\nrule a2 { x == 1 }\nrule a3 { x == 1 }\nrule a4 { x == 1 }\nrule r1 { nope }\n",
+            "rule p1(v) { %v == 1 }\nrule p2(v) { %v == 1 }\nrule p3(v) { %v == 1 }\nrule p4(v) { %v == 1 }\nrule r1 { nope(x) }\n",
+            "let q1 = x\nlet q2 = x\nlet q3 = x\nrule r1 { %zz == 1 }\n",
+            "rule r1 { x empty }\nrule r2 { parse_int(y) == 1 }\n"]):
+        base = ["validate", "-r", "{DIR}/r.guard", "-d", "{DIR}/t.json"]
+        modes = [("plain", "plain", base + ["-S", "all"]), ("s-json", "bytes", base + ["--structured", "-o", "json", "-S", "none"])]
+        out.append({"kind": "validate", "files": {"r.guard": rules, "t.json": json.dumps({"x": 1, "y": "q"})}, "modes": modes,
+                    "rules": rules, "data": json.dumps({"x": 1, "y": "q"})})
     # time stamps of every shape through parse_epoch: the result (a value or an error) must not depend on the time zone
     for k, stamp in enumerate(["2024-01-01T00:00:00Z", "2024-01-01T00:00:00", "2024-01-01 00:00:00", "2024-06-30T12:30:00+09:00",
                                "2024-01-01", "1700000000", "Mon, 01 Jan 2024 00:00:00 GMT"]):
